@@ -266,7 +266,8 @@ MUTANTS += [
     ("c05_pandas_index_regress", ST, "        df = self.df.reset_index(drop=True)\n", "        df = self.df\n", ["C05"]),
     ("c05_numpy_reshape_regress", ST, "                if data_input.size == runinput.size:\n                    data_input = data_input.reshape(original_shape)", "                data_input = data_input.reshape(original_shape)", ["C05"]),
     ("c05_xarray_z_not_subset", ST, "                    subset_kwargs[\"zinp\"] = ds[self.z_var].sel(**label_indexes).to_numpy()\n                elif self.z_var in ds.variables and ds[self.z_var].size == ds[call.stream_id].size:", "                    subset_kwargs[\"zinp\"] = ds[self.z_var].to_numpy()\n                elif self.z_var in ds.variables and ds[self.z_var].size == ds[call.stream_id].size:", ["C05"]),
-    ("c05_numpy_context_mask_carried_over", ST, "            subset_indexes = np.full_like(shape_like, 1, dtype=bool)\n", "            subset_indexes = np.full_like(shape_like, 1, dtype=bool) if 'subset_indexes' not in locals() else subset_indexes\n", ["C05"]),
+    ("c05_numpy_context_mask_carried_over", ST, "            subset_indexes = np.ones(np.shape(shape_like), dtype=bool)\n", "            subset_indexes = np.ones(np.shape(shape_like), dtype=bool) if 'subset_indexes' not in locals() else subset_indexes\n", ["C05"]),
+    ("c06_numpy_masked_row_mask_regress", ST, "            subset_indexes = np.ones(np.shape(shape_like), dtype=bool)\n", "            subset_indexes = np.full_like(shape_like, 1, dtype=bool)\n", ["C06"]),
     ("c05_netcdf_lat_lon_swapped", ST, "            varkwargs[\"lat\"] = ds.variables[self.lat_var].to_numpy()", "            varkwargs[\"lat\"] = ds.variables[self.lon_var].to_numpy()", ["C05"]),
 ]
 MUTANTS += [
@@ -276,7 +277,8 @@ MUTANTS += [
     ("c18_numpy_absent_stream_breaks", ST, "                        L.warning(\n                            f\"{call.stream_id} not in input dict, skipping\",\n                        )\n                        continue", "                        L.warning(\n                            f\"{call.stream_id} not in input dict, skipping\",\n                        )\n                        break", ["C18"]),
     ("c18_xarray_absent_stream_breaks", ST, "                        f\"{call.stream_id} is not a variable in the xarray dataset, skipping\",\n                    )\n                    continue", "                        f\"{call.stream_id} is not a variable in the xarray dataset, skipping\",\n                    )\n                    break", ["C18"]),
     ("c18_collect_empty_result_clears", RS, "        # CallResults\n        for tr in r.results:", "        # CallResults\n        if not r.results:\n            collected.clear()\n        for tr in r.results:", ["C18"]),
-    ("c18_readonly_alias_regress", RS, "                    setattr(collected[cr.hash_key], axis, np.array(values))", "                    setattr(collected[cr.hash_key], axis, values)", ["C18", "C06"]),
+    ("c18_readonly_alias_regress", RS, "                    setattr(collected[cr.hash_key], axis, copied)", "                    setattr(collected[cr.hash_key], axis, values)", ["C18", "C06"]),
+    ("c06_copy_drops_mask_regress", RS, "                    copied = values.copy() if np.ma.isMaskedArray(values) else np.array(values)", "                    copied = np.array(values)", ["C06"]),
 ]
 SO = "ioos_qc/stores.py"
 MUTANTS += [
@@ -295,7 +297,8 @@ MUTANTS += [
     ("c20_eval_from_bottom", FX, "    val = evaluate_stack(exprStack[:], stats)", "    val = evaluate_stack(exprStack[::-1][:], stats)", ["C20"]),
     ("c20_minus_is_add_in_opn", FX, '    "-": operator.sub,', '    "-": operator.add,', ["C20"]),
     ("c20_operands_swapped", FX, "        op2 = evaluate_stack(s, stats)\n        op1 = evaluate_stack(s, stats)\n        return opn[op](op1, op2)", "        op1 = evaluate_stack(s, stats)\n        op2 = evaluate_stack(s, stats)\n        return opn[op](op1, op2)", ["C20"]),
-    ("c20_unary_minus_dropped_when_repeated", FX, "    for t in toks:\n        if t == \"-\":\n            exprStack.append(\"unary -\")\n        else:\n            break", "    for t in toks[:1]:\n        if t == \"-\":\n            exprStack.append(\"unary -\")\n        else:\n            break", ["C20"]),
+    ("c20_unary_minus_dropped_when_repeated", FX, "    for t in toks:\n        if t == \"-\":\n            exprStack.append(\"unary -\")\n        elif", "    for t in toks[:1]:\n        if t == \"-\":\n            exprStack.append(\"unary -\")\n        elif", ["C20"]),
+    ("c20_minus_after_plus_dropped_regress", FX, "        elif t == \"+\":\n            # a unary plus changes nothing, the signs after it still count\n            continue\n", "        elif t == \"+\":\n            break\n", ["C20"]),
     ("c20_std_is_mean", FX, '    elif op == "std":\n        return stats["std"]', '    elif op == "std":\n        return stats["mean"]', ["C20"]),
     ("c20_validator_prefix_match", CC, "                    token not in self.allowed_stats\n", "                    not any(token.startswith(a) for a in self.allowed_stats)\n", ["C20"]),
     ("c20_validator_accepts_caret", CC, '        "/",\n    ]\n    allowed_groupings', '        "/",\n        "^",\n    ]\n    allowed_groupings', ["C20"]),
@@ -309,4 +312,19 @@ MUTANTS += [
 
 MUTANTS += [
     ("c20_leftover_stack_is_error", FX, "    val = evaluate_stack(exprStack[:], stats)\n", "    s = exprStack[:]\n    val = evaluate_stack(s, stats)\n    if s:\n        raise Exception('unconsumed tokens')\n    del exprStack[:]\n", ["C20"]),
+]
+
+# ---- regressions of the repairs made after the round-9 audits (F-18 ... F-26) -----------------------
+MUTANTS += [
+    ("c13_pressure_raw_dtype_regress", R, "        values = np.ma.masked_invalid(np.ma.array(inp).astype(np.float64))", "        values = np.ma.array(inp)", ["C13"]),
+    ("c11_step_truncated_regress", Q, "    time_interval = np.median(np.diff(tinp)) / np.timedelta64(1, \"s\")\n\n    def rolling_window",
+     "    time_interval = np.median(np.diff(tinp)).astype(\"timedelta64[s]\").astype(float)\n\n    def rolling_window", ["C11"]),
+    ("c12_min_period_step_truncated_regress", Q, "            time_interval = np.median(np.diff(tinp)) / np.timedelta64(1, \"s\") if tinp.size > 1 else np.inf",
+     "            time_interval = np.median(np.diff(tinp)).astype(\"timedelta64[s]\").astype(float) if tinp.size > 1 else np.inf", ["C12"]),
+    ("c15_guess_state_regress", A, "            inp_as_dates = np.ma.masked_invalid(mapdates(inp))\n            valid_span = np.ma.masked_invalid(mapdates(valid_span))\n            inp = inp_as_dates",
+     "            inp = np.ma.masked_invalid(mapdates(inp))\n            valid_span = np.ma.masked_invalid(mapdates(valid_span))", ["C15"]),
+    ("c03_span_promoted_whole_regress", A, "    bounds = [np.array(bound, dtype=\"datetime64\") for bound in valid_span]", "    bounds = list(np.array(valid_span, dtype=\"datetime64\"))", ["C03"]),
+    ("c20_doy366_regress", CC, "        elif 366 not in x:\n", "        else:\n", ["C20"]),
+    ("c05_xarray_label_array_regress", ST, "                        label_indexes[self.time_var] = slice(\n                            tlabels[in_window].min(),\n                            tlabels[in_window].max(),\n                        )",
+     "                        label_indexes[self.time_var] = ds[self.time_var].to_numpy()[in_window]", ["C05"]),
 ]
